@@ -249,3 +249,31 @@ Theorem get_results_monotone : forall nm ttl auto payload s t1 t2 th1 th2 pid ct
   l_ver th1 <= l_ver th2 /\ (eff_time r1 <= eff_time r2)%Z.
 Proof. exact get_results_monotone_l. Qed.
 Print Assumptions get_results_monotone.
+
+(* ---- phase 2: further ties to the Gallina regenerated from the Go source (proofs/GenTie_C07.v) ---- *)
+From Coq Require Import ZArith NArith List Bool Lia String.
+From stdpp Require Import gmap.
+From Model Require Import C06_PCache C07_PCacheConc.
+From Proofs Require Import GenTie_Lib GenTie_C06.
+From Gen Require Import Gen_Funcs_prelude Gen_Funcs_pcache.
+Import ListNotations.
+From Proofs Require Import GenTie_C07.
+
+Theorem gen_tie_publication_decision : forall (u m : nat),
+  match pcache_Refresh_merge_decision (Z.of_nat m) (Z.of_nat u) with
+  | FReturn ret tr =>
+      decide_next u m = TStore false /\ ret = "return nil"%string /\
+      tr = ["pc.read.Store(&readOnly{m: read.m, u: updates})"; "pc.refreshes.Add(1)"]%string
+  | FFall _ => decide_next u m = TAllocM
+  | _ => False
+  end.
+Proof. exact GenTie_C07.tie_publication_decision. Qed.
+Print Assumptions gen_tie_publication_decision.
+
+Theorem gen_tie_reader_lookup_order : forall (ru rm : gmap N (option rec)) (pid : N) (v : option rec) miss,
+  ru !! pid = Some v ->
+  pcache_getReadOnly_lookup (option rec) miss (default None (rm !! pid)) (default None (ru !! pid))
+     (bool_decide (is_Some (rm !! pid))) (bool_decide (is_Some (ru !! pid)))
+  = FFall (v, []).
+Proof. exact GenTie_C07.tie_reader_lookup_order. Qed.
+Print Assumptions gen_tie_reader_lookup_order.
